@@ -94,7 +94,9 @@ func (u *Unit) evalClauseVal(c *Clause, st, old *State, local map[string]Val, rv
 		switch {
 		case kind == "recv":
 			if useCurrent {
-				if v, ok := u.lookupLocal(st, name, true); ok {
+				if v, ok := u.currentParam(st, -1); ok {
+					val, have = v, true
+				} else if v, ok := u.lookupLocal(st, name, true); ok {
 					val, have = v, true
 				} else if u.entryRecv != nil {
 					val, have = *u.entryRecv, true
@@ -109,7 +111,9 @@ func (u *Unit) evalClauseVal(c *Clause, st, old *State, local map[string]Val, rv
 			var idx int
 			fmt.Sscanf(kind, "param%d", &idx)
 			if useCurrent {
-				if v, ok := u.lookupLocal(st, name, true); ok {
+				if v, ok := u.currentParam(st, idx); ok {
+					val, have = v, true
+				} else if v, ok := u.lookupLocal(st, name, true); ok {
 					val, have = v, true
 				}
 				if idx < len(u.entryParams) {
@@ -653,4 +657,24 @@ func (u *Unit) unitPkgPath() string {
 		}
 	}
 	return u.pkg.PkgPath
+}
+
+// currentParam: the current value of the idx-th parameter (-1: the receiver) of the function under
+// verification, looked up by position (the contract may call it by another name than the code)
+func (u *Unit) currentParam(st *State, idx int) (Val, bool) {
+	if u.fi == nil || u.fi.Obj == nil || len(u.inlineStack) > 0 {
+		return Val{}, false
+	}
+	sig := u.fi.Obj.Type().(*types.Signature)
+	var pv *types.Var
+	if idx < 0 {
+		pv = sig.Recv()
+	} else if idx < sig.Params().Len() {
+		pv = sig.Params().At(idx)
+	}
+	if pv == nil {
+		return Val{}, false
+	}
+	v, ok := st.env[pv]
+	return v, ok
 }
